@@ -223,6 +223,18 @@ func (engC09) Gen(r *Rng, s *Script, idx int, tier string) {
 		s.Config["steps"] = n
 		s.Config["itemlevel"] = level
 		ctr := 0
+		if r.Chance(1, 150) {
+			// a ladder: one column holding a text of every width from 0 to W, so that
+			// every amount of padding from 0 to W is asked for in one render (under
+			// left, right and centre alignment in turn)
+			top := r.Range(130, 330)
+			s.Config["padding_ladder"] = top
+			for wd := top; wd >= 0; wd-- {
+				s.Steps = append(s.Steps, Step{Op: "rowItems", Items: []Item{{K: "x", S: "w", N: wd}}})
+			}
+			s.Steps = append(s.Steps, Step{Op: "align", A: 1, B: r.Intn(4)})
+			n = r.Range(0, 3)
+		}
 		interleave := r.Chance(1, 3) // a wrapper kept by the caller is rendered while the table is still growing
 		twoTables := r.Chance(1, 8)  // some rows are also added to a second table
 		for i := 0; i < n; i++ {
@@ -244,6 +256,15 @@ func (engC09) Gen(r *Rng, s *Script, idx int, tier string) {
 				s.Steps = append(s.Steps, Step{Op: "skipable", A: r.Intn(6), B: r.Pick([]int{2, 2, 2, 1, 1})})
 			}
 		}
+	}
+	if s.Config["padding_ladder"] > 0 {
+		// (a big table: a handful of routes instead of all of them)
+		all := renderStepsAll()
+		for i := 0; i < 6; i++ {
+			s.Steps = append(s.Steps, all[r.Intn(len(all))])
+		}
+		s.Steps = append(s.Steps, Step{Op: "render", A: FmtText, B: r.Intn(6), C: ViaFresh}, Step{Op: "render", A: FmtMD, C: ViaFresh})
+		return
 	}
 	s.Steps = append(s.Steps, renderStepsAll()...)
 }
